@@ -199,6 +199,9 @@ func (g *Gen) expr(want htype, d int) *Node {
 		}
 		return g.leaf(hBool)
 	case hObj:
+		if !g.off(NoClasses) && g.fdepth < 2 && g.budget > 0 && g.chance(4) && g.topLevel() {
+			return New(g.classExpr(""), g.argList(d-1, nil)...)
+		}
 		switch g.pickW(30, 45, 15, 5, 5) {
 		case 0:
 			return g.leaf(hObj)
@@ -271,6 +274,9 @@ func (g *Gen) pickType(ts ...htype) htype { return ts[g.r.Intn(len(ts))] }
 
 // argumentsOK: `arguments` resolves to a function's arguments object here (not at top level / only in arrows at top level).
 func (g *Gen) argumentsOK() bool {
+	if g.noArgs > 0 && !g.o.ArgumentsInStrictEval {
+		return false
+	}
 	for f := g.fn; f != nil; f = f.outer {
 		if !f.arrow {
 			return true
@@ -398,6 +404,13 @@ func (g *Gen) optChain(d int) *Node {
 // argList generates call arguments; callee (may be nil = unknown) restricts function-valued arguments.
 func (g *Gen) argList(d int, callee *gfunc) []*Node {
 	n := g.pickW(25, 40, 25, 10)
+	if !g.o.SurplusArgs {
+		if callee != nil && !callee.hasRest && n > callee.nparams {
+			n = callee.nparams
+		} else if callee == nil && n > 1 {
+			n = 1
+		}
+	}
 	var args []*Node
 	if callee != nil && callee.recursive {
 		args = append(args, Num(float64(g.r.Intn(4))))
@@ -420,7 +433,7 @@ func (g *Gen) argList(d int, callee *gfunc) []*Node {
 		if a == nil {
 			a = g.exprNoFunc(t, d)
 		}
-		if !g.off(NoSpread) && g.chance(8) {
+		if !g.off(NoSpread) && g.chance(8) && (g.o.SurplusArgs || callee == nil || callee.hasRest) {
 			a = Spread(g.expr(hArr, d))
 		}
 		args = append(args, a)
@@ -477,7 +490,7 @@ func (g *Gen) call(d int) *Node {
 
 func (g *Gen) iife(d int) *Node {
 	f := g.funcExpr()
-	return Call(f, g.argList(d, nil)...)
+	return Call(f, g.argList(d, g.lastFn)...)
 }
 
 func (g *Gen) newExpr(d int) *Node {
@@ -754,6 +767,11 @@ func (g *Gen) funcLike(kind fkind, name string) *Node {
 	sc := g.push(true)
 	sc.paramSet = map[string]bool{}
 	sc.patParam = map[string]bool{}
+	if kind == fkExpr && name != "" {
+		// the function expression's own name: an immutable binding, never an assignment target
+		// (listed known finding C02-funcname-assign-stack-leak: the ignored sloppy assignment leaks a stack slot)
+		sc.binds = append(sc.binds, &gbind{name: name, kind: "func", holds: hFunc, protect: true})
+	}
 
 	// parameters
 	np := g.pickW(30, 35, 25, 10)
@@ -813,6 +831,37 @@ func (g *Gen) funcLike(kind fkind, name string) *Node {
 		}
 	}
 	info.nparams = np
+	for i, pn := range f.L {
+		if pn.K == KRest {
+			info.hasRest = true
+		}
+		if !g.o.ForwardRefDefaults {
+			// known finding C02-forward-ref-param-defaults: no default may mention its own or a later parameter
+			var later []string
+			for _, q := range f.L[i:] {
+				later = BoundNames(q, later)
+			}
+			Any(pn, false, false, func(x *Node) bool {
+				var dflt **Node
+				switch x.K {
+				case KPatElem, KPatProp:
+					dflt = &x.B
+				}
+				if dflt != nil && *dflt != nil {
+					for _, nm := range later {
+						if Mentions(*dflt, nm) {
+							*dflt = g.lit(hAny)
+							break
+						}
+					}
+				}
+				return false
+			})
+		}
+	}
+	if !info.simple && kind == fkExpr && !g.o.NamedFuncExprNonSimple {
+		f.S, name = "", ""
+	}
 	if !info.simple && kind == fkExpr {
 		sc.selfName = name
 	}
